@@ -3,13 +3,13 @@
 # passes with it (only number_long_decimal fails), and the demo differs with/without the change.
 set -u
 D="$(readlink -f "$1")"
-W=/tmp/wt/confirm
+W="${CONFIRM_WT:-/tmp/wt/confirm}"
 cd "$W" || exit 2
 git checkout -q -- . ; git clean -fdq -e target
 git checkout -q --detach "$(git -C /repo rev-parse HEAD)" 2>/dev/null
 run_demo() {
-  if [ -f "$D/demo.yl" ]; then (cd "$W" && timeout 120 cargo run -q --offline -p yarel-cli -- "$D/demo.yl" 2>&1; echo "exit=$?");
-  elif [ -f "$D/demo.sh" ]; then (cd "$W" && WORKTREE="$W" timeout 600 bash "$D/demo.sh" 2>&1; echo "exit=$?"); else echo "no demo"; fi
+  if [ -f "$D/demo.sh" ]; then (cd "$W" && WORKTREE="$W" timeout 900 bash "$D/demo.sh" "$W" 2>&1 | sed -e 's/0x[0-9a-f]\{6,\}/ADDR/g' -e 's/thread .<unnamed>. ([0-9]*)/thread/'; echo "exit=$?");
+  elif [ -f "$D/demo.yl" ]; then (cd "$W" && timeout 120 cargo run -q --offline -p yarel-cli -- "$D/demo.yl" 2>&1 | sed -e 's/0x[0-9a-f]\{6,\}/ADDR/g' -e 's/thread .<unnamed>. ([0-9]*)/thread/'; echo "exit=$?"); else echo "no demo"; fi
 }
 clean_out=$(run_demo)
 git apply "$D/patch.diff" || { echo "RESULT $D patch-does-not-apply"; exit 1; }
